@@ -8,8 +8,9 @@
       ProofsTx     transactions, histories, ApplyEvmMsg arithmetic, non-vacuity examples
       ProofsHist   histories against the pure reference history (the reference respects pointwise equality)
       ProofsWf     the boolean protocol check on traces implies the Prop-level hypotheses
+      ProofsPre    the standard precompiles 0x01..0x09: price tables per upstream fork table (MODEXP, EIP-2565)
       ProofsMsg    the message layer: pointer / branch discipline of Keeper.EthereumTx, message histories
                    against the reference state transition, refutation of the clear-on-success-only variant
     This file gathers them for Property.v. *)
 Require Export Nib.C03.ProofsBase Nib.C03.ProofsUndo Nib.C03.ProofsOps Nib.C03.ProofsSim
-               Nib.C03.ProofsInv Nib.C03.ProofsCommit Nib.C03.ProofsTx Nib.C03.ProofsHist Nib.C03.ProofsWf Nib.C03.ProofsMsg.
+               Nib.C03.ProofsInv Nib.C03.ProofsCommit Nib.C03.ProofsTx Nib.C03.ProofsHist Nib.C03.ProofsWf Nib.C03.ProofsMsg Nib.C03.ProofsPre.
